@@ -57,7 +57,11 @@ def frames():
         "A": pd.Categorical(list("zxzx"), categories=["x", "y", "z"]),
         "B": pd.Series(list("uvvu"), dtype=object),
     })
-    return {"cross6": f6, "row1": f1, "rep4": f4, "absent-level": fabs}
+    fshuf = f6.copy()
+    fshuf.index = [3, 5, 0, 1, 4, 2]  # integer labels that are a permutation of the positions
+    fstr = f4.copy()
+    fstr.index = ["r3", "r1", "r1", "r0"]  # non-unique string labels
+    return {"cross6": f6, "row1": f1, "rep4": f4, "absent-level": fabs, "shuffled-index": fshuf, "string-index": fstr}
 
 
 def universe(tier):
@@ -187,8 +191,8 @@ def subchecks(tier, seed):
     if tier == "quick":
         return [
             Sub("columns-2terms", drv, {"universe": U, "K": 2, "modes": ["terms"], "outputs": ["pandas", "sparse"],
-                                        "frames": fr, "frame_names": ["cross6"]},
-                shard_depth=2, bounds={"max_terms": 2, "universe": len(U), "frames": ["cross6"], "outputs": ["pandas", "sparse"],
+                                        "frames": fr, "frame_names": ["cross6", "shuffled-index"]},
+                shard_depth=2, bounds={"max_terms": 2, "universe": len(U), "frames": ["cross6", "shuffled-index"], "outputs": ["pandas", "sparse"],
                                        "construction": ["term list"]}),
             Sub("columns-1term-allframes", drv, {"universe": U, "K": 1, "modes": ["string", "terms"], "outputs": ["pandas", "numpy", "sparse"],
                                                  "frames": fr, "frame_names": list(fr)},
